@@ -77,6 +77,12 @@ func checkC09(c *Ctx) {
 	c.Rule("C09-R18", "zero-width and format characters given as primary content are shown as blanks: SetContent stores the rune and the combining list as given (a zero-width primary rune moved into the combining list takes the unsanitised path to the terminal; = C08-R11)")
 	c.Expect("C09-R18", 2)
 	checkSetContentStoresWhatItIsGiven(c, p, "C09-R18")
+	c.Rule("C09-R19", "no negative numbers: Hex answers -1, the colour's own 24 bits or a table entry, so that the components handed to the RGB capabilities are 0..255 (= C16-R4)")
+	c.Expect("C09-R19", 3)
+	c.asRule("C16-R4", "C09-R19", func() { c16Gates(c, p) })
+	c.Rule("C09-R20", "printable characters in the terminal's character set: the ACS glyph is the byte of the acsc string itself, not the UTF-8 of the code point with that number (whose second byte is a C1 control on an 8-bit line; = C17-R3)")
+	c.Expect("C09-R20", 60)
+	c.asRule("C17-R3", "C09-R20", func() { c17Acs(c, p) })
 	c.Rule("C09-R15", "numeric parameters only: %d writes the decimal form of the number it pops, by strconv or by a helper decided by constant evaluation over -1000..70000 (a helper short of digits writes ':' ';' '<' or control bytes into the CSI; = C15-R10)")
 	c.Expect("C09-R15", 1)
 	c.asRule("C15-R10", "C09-R15", func() { checkDecimalOutput(c, p, "C15-R10") })
